@@ -26,9 +26,54 @@ use crate::Value;
 ///
 /// The most natural way to traverse a singly linked list is probably by using
 /// the `list_iter` method.
-#[derive(PartialEq, Clone)]
 pub struct Cons {
     inner: Box<(Value, Value)>,
+}
+
+// `Clone` and `PartialEq` are implemented by hand, walking the `cdr` chain in
+// a loop like `Drop` below does: the derived implementations recurse once per
+// list element and overflow the stack on long lists.
+impl Clone for Cons {
+    fn clone(&self) -> Self {
+        let mut head = Cons::new(self.car().clone(), Value::Null);
+        let mut last = &mut head;
+        let mut cursor = self;
+        loop {
+            match cursor.cdr() {
+                Value::Cons(next) => {
+                    last.set_cdr(Value::Cons(Cons::new(next.car().clone(), Value::Null)));
+                    last = match last.cdr_mut() {
+                        Value::Cons(cell) => cell,
+                        _ => unreachable!(),
+                    };
+                    cursor = next;
+                }
+                tail => {
+                    last.set_cdr(tail.clone());
+                    return head;
+                }
+            }
+        }
+    }
+}
+
+impl PartialEq for Cons {
+    fn eq(&self, other: &Cons) -> bool {
+        let mut lhs = self;
+        let mut rhs = other;
+        loop {
+            if lhs.car() != rhs.car() {
+                return false;
+            }
+            match (lhs.cdr(), rhs.cdr()) {
+                (Value::Cons(l), Value::Cons(r)) => {
+                    lhs = l;
+                    rhs = r;
+                }
+                (l, r) => return l == r,
+            }
+        }
+    }
 }
 
 impl fmt::Debug for Cons {
